@@ -151,6 +151,18 @@ CLAIMED = {
         note=TRUST + " Assumed: cast.ToFloat64E and jsonpath.TravelerPathLookup contracts, sort.* not modelled, each arm's sends on the shared "
              "output are counted in isolation (sequential process model).",
         technique="contract-based deductive verification: process contracts over channel histories, WP/VC generation over go/ssa + SMT"),
+    "C02": dict(
+        level="other",
+        text="Partial: (1) the index-start rewrite is proved to hand duplicate-free id and label lists to the lookups it introduces "
+             "(dedupStringSlice proved duplicate-free for every input), so an element is not returned once per repetition of its id or "
+             "label; it is also proved panic-free (C06). (2) The load-elision analysis PipelineStepOutputs is proved, for every "
+             "statement sequence, to mark the step of every has() statement as loaded; the same clause for hasKey fails and is a "
+             "known finding (with fields/render/unwind/path/aggregate and mark references). Not decided: that the rewritten "
+             "pipeline returns the same rows as the literal one (needs the step semantics of C01 composed), count() equality, "
+             "and the equivalence of filter spellings beyond the shared extraction function.",
+        ref="§5 C02",
+        note=TRUST + " Assumed: protoutil and structpb accessors are pure; PipelineSteps/PipelineAsSteps only through their length / non-nil contracts.",
+        technique="contract-based deductive verification: WP/VC generation over go/ssa + SMT (z3/cvc5)"),
 }
 
 NOT_APPLICABLE = {
